@@ -323,6 +323,8 @@ class History:
         self.lowp = self.prec == 32 or desc.get('dtype', 'float64') == 'float32'
         self.rt = 1e-9 if self.prec == 64 else 1e-4            # coordinates are built in the configured precision
         self.obj = Interferogram(relayout(z, desc.get('layout', 'C')), dx=desc['dx'])
+        fin0 = z[np.isfinite(z)]
+        self.scale_hi = float(np.abs(fin0).max()) if fin0.size else 1.0     # largest data magnitude this history has seen
         self.populated = set()   # inferred cache population ('xy', 'rt') from the public reads / rebuilding ops of this history
         self.masks = {}      # (variant, shape) -> (mask object handed to prysm, pristine copy the model predicts from)
         self.executed = []
@@ -331,6 +333,14 @@ class History:
 
     def tol(self, f64, f32):
         return f32 if self.lowp else f64
+
+    def floor(self, scale):
+        """Scale a relative threshold is applied to: the magnitude of the current data, but never below the round-off level of the
+        data this history started from (after an exact fit has been removed the samples are numerical zeros; their float32 squares
+        underflow, so statistics / laws of such data are only meaningful relative to that level)."""
+        self.scale_hi = max(self.scale_hi, float(scale) if scale == scale and scale != float('inf') else 0.0)
+        eps = 1.2e-7 if self.lowp else 2.3e-16
+        return max(float(scale), eps * self.scale_hi, 1e-300)
 
     def pooled_mask(self, opv, shape):
         _, kind, seed = opv.split(':')
@@ -391,9 +401,10 @@ class History:
         ctx.observe('M3.statistics')
         with ctx.guard('C12/statistics', desc):
             got = {'pv': o.pv, 'rms': o.rms, 'Sa': o.Sa, 'std': o.std}
-            tol = self.tol(1e-10, 1e-4) * max(s['scale'], 1e-300)
+            fsc = self.floor(s['scale'])
+            tol = self.tol(1e-10, 1e-4) * fsc
             if self.lowp:
-                ro('statistics.value', max(abs(float(got[k]) - s[k]) for k in got) / max(s['scale'], 1e-300))
+                ro('statistics.value', max(abs(float(got[k]) - s[k]) for k in got) / fsc)
             bad = [k for k in got if not abs(float(got[k]) - s[k]) <= tol]
             if bad:
                 nan = 'has-nan' if np.isnan(d).any() else 'nan-free'
@@ -403,8 +414,8 @@ class History:
                 return
             r2 = float(got['rms']) ** 2
             if self.lowp:
-                ro('statistics.identity', abs(r2 - (float(got['std']) ** 2 + s['mean'] ** 2)) / max(r2, s['scale'] ** 2, 1e-300))
-            ok = abs(r2 - (float(got['std']) ** 2 + s['mean'] ** 2)) <= (1e-10 * max(r2, 1e-300) if not self.lowp else 1e-3 * max(r2, s['scale'] ** 2))
+                ro('statistics.identity', abs(r2 - (float(got['std']) ** 2 + s['mean'] ** 2)) / max(r2, fsc ** 2, 1e-300))
+            ok = abs(r2 - (float(got['std']) ** 2 + s['mean'] ** 2)) <= (1e-10 * max(r2, 1e-300) if not self.lowp else 1e-3 * max(r2, fsc ** 2))
             ok = ok and float(got['Sa']) <= float(got['std']) * (1 + 1e-12) + tol and float(got['std']) <= float(got['pv']) * (1 + 1e-12) + tol
             if not ok:
                 ctx.violation('C12/statistics/identities', 'rms^2 != std^2 + mean^2 or not Sa <= std <= PV', desc, step=pos, got=got)
@@ -538,7 +549,7 @@ class History:
             s = finite_stats(before)
             lvl = arg * s['std']
             mag = np.abs(np.where(bnan, 0.0, before))
-            band = np.abs(mag - lvl) <= self.tol(1e-9, 1e-4) * max(lvl, s['scale'])
+            band = np.abs(mag - lvl) <= self.tol(1e-9, 1e-4) * self.floor(max(lvl, s['scale']))
             exp = bnan | (mag > lvl)
             if band.any():
                 ctx.skip('spike_clip: samples within 1e-9 (float32: 1e-4) of the clip level not compared', int(band.sum()))
@@ -564,7 +575,7 @@ class History:
         # ---- M3 laws for this op ------------------------------------------------------------------------
         if opc == 'remove_piston':
             s = finite_stats(after)
-            sc = float(np.abs(before[~bnan]).max())
+            sc = self.floor(float(np.abs(before[~bnan]).max()))
             ctx.observe('M3.piston-zero-mean')
             if self.lowp:
                 ro('piston.mean', abs(s['mean']) / max(sc, 1e-300))
@@ -592,7 +603,7 @@ class History:
         ctx, o, desc = self.ctx, self.obj, self.desc
         after = o.data
         valid = ~bnan
-        sc = max(float(np.abs(before[valid]).max()), 1e-300)
+        sc = self.floor(float(np.abs(before[valid]).max()))
         c = copy.deepcopy(o)
         if which == 'tilt':
             A = np.stack([c.x[valid], c.y[valid]], axis=1).astype(float)
@@ -695,7 +706,7 @@ def plan_sequences(ctx):
     nexh = len(seqs)
     seen = set(seqs)
     rng = np.random.default_rng([ctx.seed, 12, 0xC12])
-    nrand = ctx.pick(1200, 60000)
+    nrand = ctx.pick(1200, 40000)
     lo, hi = depth + 1, ctx.pick(8, 18)
     tries = 0
     while len(seqs) < nexh + nrand and tries < 20 * nrand:
